@@ -1,4 +1,47 @@
+/-
+  C04 — property theorems only. Change detection is exact.
+
+  `a ≈ b` (`Equiv`) is the equivalence the real `diffs.diff` decides: Python `==` (`J.pyEq`, so
+  `True == 1`, dict key order irrelevant) modulo object keys whose value is `null` (`J.dropNulls`;
+  Kubernetes never stores such keys, `diff_iter(None, None)` yields nothing). Both deviations from
+  plain structural equality are visible below and shown necessary by witnesses.
+-/
 import Kopf.Model.C04_Diff
 import Kopf.Model.C04_Essence
+import Kopf.Lemmas.C04_Diff
 namespace Kopf.C04
+open Kopf Kopf.J
+
+/-- Python equality modulo null-valued object keys. -/
+def Equiv (a b : J) : Prop := pyEq (dropNulls a) (dropNulls b) = true
+infix:50 " ≈ " => Equiv
+
+/-- `diff a a = []` for every well-formed `a` (any nesting). -/
+theorem diff_self_empty (a : J) (p : Path) (h : J.WF a) : diff a a p = [] :=
+  diff_of_pyEq p (pyEq_refl a h)
+
+/-- the diff is empty **iff** nothing differs (up to `≈`), for all well-formed values. -/
+theorem diff_empty_iff (a b : J) (p : Path) (ha : J.WF a) (hb : J.WF b) :
+    diff a b p = [] ↔ a ≈ b :=
+  diff_nil_iff a b p ha hb
+
+/-- F7, bool-vs-int: `1` and `true` are different JSON values, yet the diff is empty — the strict
+    reading of "empty only if nothing differs" is false of the code (known finding F7). -/
+theorem bool_int_witness :
+    diff (.obj [("spec", .obj [("a", .num 1)])]) (.obj [("spec", .obj [("a", .bool true)])]) [] = []
+    ∧ (J.obj [("spec", .obj [("a", .num 1)])] == J.obj [("spec", .obj [("a", .bool true)])]) = false := by
+  decide
+
+/-- null ≡ absent: a key with value `null` and a missing key are not distinguished (Kubernetes'
+    own semantics, part of `≈`), also below the root; inside arrays nulls do count. -/
+theorem null_absent_witness :
+    diff (.obj [("a", .null)]) (.obj []) [] = []
+    ∧ diff (.obj [("a", .obj [("b", .null)])]) (.obj [("a", .obj [])]) [] = []
+    ∧ diff (.obj [("a", .arr [.obj [("b", .null)]])]) (.obj [("a", .arr [.obj []])]) [] ≠ [] := by
+  decide
+
+example : J.WF (.obj [("spec", .obj [("a", .num 1), ("b", .arr [.null, .obj []])])]) := by unfold J.WF; decide
+example : (J.obj [("a", .num 1), ("b", .null)]) ≈ (J.obj [("a", .bool true)]) := by unfold Equiv; decide
+example : ¬ ((J.obj [("a", .num 1)]) ≈ (J.obj [("a", .num 2)])) := by unfold Equiv; decide
+
 end Kopf.C04
